@@ -822,6 +822,74 @@ fn main() {
             }
             extra = json!({"rounds": 3, "cancelled_traces_suppressed": suppressed, "commands_queued_by_other_threads_per_round": 80_000});
         }
+        "many-busy-queues-flush" => {
+            // eight threads finish 10000 children each of one open root (80000 commands, no queue
+            // full, no root finishing): one flush() called afterwards delivers all of them
+            let rep = Rep::default();
+            fastrace::set_reporter(rep.clone(), Config::default().report_interval(Duration::from_secs(3600)));
+            std::thread::sleep(Duration::from_millis(30));
+            let root = Arc::new(Span::root("open-root", SpanContext::new(TraceId(0xa200), SpanId(1))));
+            let hs: Vec<_> = (0..8)
+                .map(|_| {
+                    let root = root.clone();
+                    std::thread::spawn(move || {
+                        for _ in 0..10_000 {
+                            drop(Span::enter_with_parent("child", &root));
+                        }
+                    })
+                })
+                .collect();
+            for h in hs {
+                h.join().unwrap();
+            }
+            fastrace::flush();
+            c();
+            let after_one = rep.0.lock().unwrap().iter().filter(|r| r.name == "child").count();
+            drop(Arc::try_unwrap(root).ok().expect("workers are gone"));
+            fastrace::flush();
+            let total = rep.0.lock().unwrap().len();
+            extra = json!({"children_finished_before_flush": 80_000, "delivered_when_flush_returned": after_one, "records_in_the_end": total});
+            if after_one != 80_000 {
+                panic!("{} of 80000 spans that had finished before flush() was called were delivered when it returned (eight queues of 10000 commands each, none full)", after_one);
+            }
+            if total != 80_001 {
+                panic!("{} records in the end, expected 80001", total);
+            }
+        }
+        "nested-scope-capacity" => {
+            // 10000 local spans in a scope, then a nested scope (another span set as local parent)
+            // with 500 more: each scope has its own limit of 10240 records
+            let rep = install(false);
+            let root = Span::root("root", SpanContext::new(TraceId(0xa300), SpanId(1)));
+            {
+                let _g = root.set_local_parent();
+                for _ in 0..10_000 {
+                    let _l = LocalSpan::enter_with_local_parent("outer-item");
+                }
+                let child = Span::enter_with_local_parent("nested");
+                {
+                    let _g2 = child.set_local_parent();
+                    for _ in 0..500 {
+                        let _l = LocalSpan::enter_with_local_parent("inner-item");
+                    }
+                    let lc = fastrace::local::LocalCollector::start();
+                    for _ in 0..300 {
+                        let _l = LocalSpan::enter_with_local_parent("collected-item");
+                    }
+                    child.push_child_spans(lc.collect());
+                    c();
+                }
+            }
+            drop(root);
+            fastrace::flush();
+            let recs = rep.0.lock().unwrap();
+            let count = |n: &str| recs.iter().filter(|r| r.name == n).count();
+            let got = (count("outer-item"), count("inner-item"), count("collected-item"));
+            extra = json!({"outer": got.0, "inner": got.1, "collected": got.2});
+            if got != (10_000, 500, 300) {
+                panic!("10000 local spans in a scope, 500 in a scope nested in it, 300 in a collector nested in that: delivered {:?} (no scope reached its limit of 10240)", got);
+            }
+        }
         "many-threads-span-ids" => {
             // 66000 short-lived threads create one span each: span ids of different threads must
             // not repeat. Ids are (random 32-bit thread prefix, counter), so a handful of chance
